@@ -723,9 +723,13 @@ def check_merge_structure(ctx, probes, out, model, offs):
             for b in blocks:
                 exp[a:a + b.shape[0], a:a + b.shape[0]] = b
                 a += b.shape[0]
-            ctx.check(M.shape == exp.shape and bool(np.array_equal(M, exp.astype(M.dtype))),
-                      'merged-matrix-not-block-diagonal', lambda: {'file': name,
-                                                                   'shape': list(M.shape)})
+            # (exact: the merged matrix must be able to HOLD every block, whatever type the first
+            # probe happens to use)
+            ctx.check(M.shape == exp.shape and bool(np.array_equal(
+                np.asarray(M, dtype=np.float64), exp)),
+                'merged-matrix-not-block-diagonal', lambda: {'file': name,
+                                                             'shape': list(M.shape),
+                                                             'dtype': str(M.dtype)})
         elif any(have):
             ctx.probe('matrix_in_some')
     # params
